@@ -10,6 +10,9 @@ import Mathlib.Tactic.Ring
 import Mathlib.Tactic.Linarith
 import Mathlib.Analysis.SpecialFunctions.Trigonometric.Basic
 import Mathlib.Tactic.FinCases
+import Mathlib.RingTheory.Polynomial.Cyclotomic.Roots
+import Mathlib.RingTheory.PowerBasis
+import Mathlib.RingTheory.RootsOfUnity.Complex
 
 /-! # C17 — the de Bruijn-grid generator: what the index map guarantees
 
@@ -185,5 +188,149 @@ theorem penrose_rhombi (b₁ b₂ : Fin 5) (hne : b₁ ≠ b₂) :
     | (right; apply key2; decide)
 
 end Angles
+
+section Cyclotomic
+open Polynomial Complex
+
+/-! ### five bundles: index vectors are mapped to the same point only if they differ by a multiple of (1,1,1,1,1) -/
+
+noncomputable def zeta5 : ℂ := Complex.exp (2 * Real.pi * Complex.I / (5 : ℕ))
+
+theorem zeta5_prim : IsPrimitiveRoot zeta5 5 := Complex.isPrimitiveRoot_exp 5 (by norm_num)
+
+theorem zeta5_indep : LinearIndependent ℚ fun i : Fin 4 => zeta5 ^ (i : ℕ) := by
+  have h := linearIndependent_pow (K := ℚ) zeta5
+  have hdeg : (minpoly ℚ zeta5).natDegree = 4 := by
+    rw [← cyclotomic_eq_minpoly_rat zeta5_prim (by norm_num), natDegree_cyclotomic]
+    decide
+  rw [hdeg] at h
+  exact h
+
+theorem zeta5_sum : 1 + zeta5 + zeta5 ^ 2 + zeta5 ^ 3 + zeta5 ^ 4 = 0 := by
+  have := zeta5_prim.geom_sum_eq_zero (by norm_num : 1 < 5)
+  simpa [Finset.sum_range_succ] using this
+
+/-- the only integer relations among the five star vectors are the multiples of `e₀ + e₁ + e₂ + e₃ + e₄ = 0` -/
+theorem star5_relations (r : Fin 5 → ℤ) (h : ∑ b : Fin 5, (r b : ℂ) * zeta5 ^ (b : ℕ) = 0) : ∀ b, r b = r 4 := by
+  have h4 : zeta5 ^ 4 = -(1 + zeta5 + zeta5 ^ 2 + zeta5 ^ 3) := by linear_combination zeta5_sum
+  rw [Fin.sum_univ_five] at h
+  simp only [Fin.val_zero, Fin.val_one, Fin.val_two, pow_zero, pow_one] at h
+  have hv3 : ((3 : Fin 5) : ℕ) = 3 := rfl
+  have hv4 : ((4 : Fin 5) : ℕ) = 4 := rfl
+  rw [hv3, hv4, h4] at h
+  have hlin := Fintype.linearIndependent_iff.mp zeta5_indep (fun i : Fin 4 => ((r (Fin.castSucc i) - r 4 : ℤ) : ℚ)) (by
+    rw [Fin.sum_univ_four]
+    simp only [Fin.val_zero, Fin.val_one, Fin.val_two, pow_zero, pow_one]
+    have hv3' : ((3 : Fin 4) : ℕ) = 3 := rfl
+    rw [hv3']
+    simp only [Algebra.smul_def, eq_ratCast]
+    push_cast
+    linear_combination h)
+  intro b
+  have q : ∀ i : Fin 4, r (Fin.castSucc i) = r 4 := by
+    intro i
+    have := hlin i
+    have : ((r (Fin.castSucc i) - r 4 : ℤ) : ℚ) = 0 := this
+    have : r (Fin.castSucc i) - r 4 = 0 := by exact_mod_cast this
+    omega
+  fin_cases b
+  · exact q 0
+  · exact q 1
+  · exact q 2
+  · exact q 3
+  · rfl
+
+/-- koala's star vectors for five bundles, as complex numbers: `(cos 2πb/5, sin 2πb/5) = ζ^b` -/
+noncomputable def star5 (b : Fin 5) : ℂ := zeta5 ^ (b : ℕ)
+
+/-- **C17 (five bundles, no two vertices coincide — exact part)**: two index vectors are mapped to the same point by
+    `Σ_b index_b · star_b` only if they differ by a multiple of `(1,1,1,1,1)` — the converse of `position_mod_relation`.  So
+    index vectors that are pairwise different modulo that relation (what the model re-checks on koala's output) give pairwise
+    different vertex positions. -/
+theorem penrose_position_injective (idx idx' : Fin 5 → ℤ) (h : position star5 idx = position star5 idx') :
+    ∀ b, idx b - idx' b = idx 4 - idx' 4 := by
+  apply star5_relations (fun b => idx b - idx' b)
+  have h0 : position star5 idx - position star5 idx' = 0 := sub_eq_zero.mpr h
+  unfold position star5 at h0
+  rw [← Finset.sum_sub_distrib] at h0
+  have : ∀ b : Fin 5, idx b • zeta5 ^ (b : ℕ) - idx' b • zeta5 ^ (b : ℕ) = ((idx b - idx' b : ℤ) : ℂ) * zeta5 ^ (b : ℕ) := by
+    intro b; simp only [zsmul_eq_mul]; push_cast; ring
+  simp_rw [this] at h0
+  exact h0
+
+/-- `ζ^b` is the point `(cos 2πb/5, sin 2πb/5)` of the plane: the star vector koala uses for bundle `b` -/
+theorem star5_eq (b : Fin 5) : star5 b = (Real.cos (2 * Real.pi * (b : ℕ) / 5) : ℂ) + (Real.sin (2 * Real.pi * (b : ℕ) / 5) : ℂ) * Complex.I := by
+  unfold star5 zeta5
+  rw [← Complex.exp_nat_mul]
+  have : ((b : ℕ) : ℂ) * (2 * Real.pi * Complex.I / ((5 : ℕ) : ℂ)) = ((2 * Real.pi * (b : ℕ) / 5 : ℝ) : ℂ) * Complex.I := by
+    push_cast; ring
+  rw [this, Complex.exp_mul_I, ← Complex.ofReal_cos, ← Complex.ofReal_sin]
+
+/-! ### any prime number of bundles -/
+
+noncomputable def zetaP (p : ℕ) : ℂ := Complex.exp (2 * Real.pi * Complex.I / (p : ℕ))
+
+theorem zetaP_prim (p : ℕ) (hp : p ≠ 0) : IsPrimitiveRoot (zetaP p) p := Complex.isPrimitiveRoot_exp p hp
+
+theorem zetaP_indep (p : ℕ) [hp : Fact p.Prime] : LinearIndependent ℚ fun i : Fin (p - 1) => zetaP p ^ (i : ℕ) := by
+  have h := linearIndependent_pow (K := ℚ) (zetaP p)
+  have hdeg : (minpoly ℚ (zetaP p)).natDegree = p - 1 := by
+    rw [← cyclotomic_eq_minpoly_rat (zetaP_prim p hp.out.ne_zero) hp.out.pos, natDegree_cyclotomic, Nat.totient_prime hp.out]
+  rw [hdeg] at h
+  exact h
+
+/-- for a prime number `p` of bundles the only integer relations among the star vectors are the multiples of `Σ_b e_b = 0` -/
+theorem starP_relations (p : ℕ) [hp : Fact p.Prime] (r : Fin p → ℤ) (h : ∑ b : Fin p, (r b : ℂ) * zetaP p ^ (b : ℕ) = 0) (b : Fin p) :
+    r b = r ⟨p - 1, Nat.sub_lt hp.out.pos Nat.one_pos⟩ := by
+  obtain ⟨q, hq⟩ : ∃ q, p = q + 1 := ⟨p - 1, (Nat.succ_pred_eq_of_pos hp.out.pos).symm⟩
+  subst hq
+  set ζ := zetaP (q + 1) with hζ
+  have hgeom : ∑ i : Fin (q + 1), ζ ^ (i : ℕ) = 0 := by
+    have := (zetaP_prim (q + 1) (Nat.succ_ne_zero q)).geom_sum_eq_zero hp.out.one_lt
+    rw [← Fin.sum_univ_eq_sum_range (fun i => ζ ^ i)] at this
+    exact this
+  -- subtract r(last) times the geometric sum
+  have h2 : ∑ i : Fin (q + 1), ((r i : ℂ) - (r (Fin.last q) : ℂ)) * ζ ^ (i : ℕ) = 0 := by
+    have : ∑ i : Fin (q + 1), ((r i : ℂ) - (r (Fin.last q) : ℂ)) * ζ ^ (i : ℕ)
+        = ∑ i : Fin (q + 1), (r i : ℂ) * ζ ^ (i : ℕ) - (r (Fin.last q) : ℂ) * ∑ i : Fin (q + 1), ζ ^ (i : ℕ) := by
+      rw [Finset.mul_sum, ← Finset.sum_sub_distrib]
+      apply Finset.sum_congr rfl; intro i _; ring
+    rw [this, h, hgeom]; ring
+  rw [Fin.sum_univ_castSucc] at h2
+  simp only [Fin.val_last, sub_self, zero_mul, add_zero, Fin.val_castSucc] at h2
+  have hind : LinearIndependent ℚ fun i : Fin q => ζ ^ (i : ℕ) := zetaP_indep (q + 1)
+  have hlin := Fintype.linearIndependent_iff.mp hind (fun i : Fin q => ((r (Fin.castSucc i) - r (Fin.last q) : ℤ) : ℚ)) (by
+    simp only [Algebra.smul_def, eq_ratCast]
+    push_cast
+    exact h2)
+  have hb : ∀ i : Fin q, r (Fin.castSucc i) = r (Fin.last q) := by
+    intro i
+    have : ((r (Fin.castSucc i) - r (Fin.last q) : ℤ) : ℚ) = 0 := hlin i
+    have : r (Fin.castSucc i) - r (Fin.last q) = 0 := by exact_mod_cast this
+    omega
+  have hl : (⟨q + 1 - 1, Nat.sub_lt hp.out.pos Nat.one_pos⟩ : Fin (q + 1)) = Fin.last q := by
+    apply Fin.ext; simp
+  rw [hl]
+  induction b using Fin.lastCases with
+  | last => rfl
+  | cast i => exact hb i
+
+noncomputable def starP (p : ℕ) (b : Fin p) : ℂ := zetaP p ^ (b : ℕ)
+
+/-- **C17 (3, 5 or 7 bundles — any prime number —, no two vertices coincide, exact part)**: two index vectors are mapped to the
+    same point only if they differ by a multiple of `(1, …, 1)` -/
+theorem prime_position_injective (p : ℕ) [hp : Fact p.Prime] (idx idx' : Fin p → ℤ) (h : position (starP p) idx = position (starP p) idx') (b : Fin p) :
+    idx b - idx' b = idx ⟨p - 1, Nat.sub_lt hp.out.pos Nat.one_pos⟩ - idx' ⟨p - 1, Nat.sub_lt hp.out.pos Nat.one_pos⟩ := by
+  apply starP_relations p (fun b => idx b - idx' b)
+  have h0 : position (starP p) idx - position (starP p) idx' = 0 := sub_eq_zero.mpr h
+  unfold position starP at h0
+  rw [← Finset.sum_sub_distrib] at h0
+  have : ∀ b : Fin p, idx b • zetaP p ^ (b : ℕ) - idx' b • zetaP p ^ (b : ℕ) = ((idx b - idx' b : ℤ) : ℂ) * zetaP p ^ (b : ℕ) := by
+    intro b; simp only [zsmul_eq_mul]; push_cast; ring
+  simp_rw [this] at h0
+  exact h0
+
+
+end Cyclotomic
 
 end C17
